@@ -330,7 +330,7 @@ def c_val(v: tuple) -> str:
     if t == "str":
         return f"(VStr {cq(v[1])})"
     if t in ("list", "tuple"):
-        return f"(VList {C.clist(map(c_val, v[1]), 'val')})"
+        return f"(VList {C.cbool(t == 'tuple')} {C.clist(map(c_val, v[1]), 'val')})"
     if t == "dict":
         return f"(VDict {c_kvs(v[1])})"
     o = v[1]
@@ -579,7 +579,8 @@ class Gen:
         if depth <= 0 or k < 0.55:
             return self.prim()
         if k < 0.7:
-            return ("list", [self.value(depth - 1) for _ in range(r.randint(0, 3))])
+            return ("list" if r.random() < 0.8 else "tuple",
+                    [self.value(depth - 1) for _ in range(r.randint(0, 3))])
         if k < 0.8:
             return ("dict", self.kvs(depth - 1))
         return self.obj(depth - 1)
@@ -1214,7 +1215,7 @@ def correspond_tolerant(chk: C.Check, tag: str, items: list[dict[str, Any]], wha
     (OutOfFuel: behaviour this model does not transcribe) is counted as
     'no prediction' instead of a disagreement."""
     rc = C.run_cases(tag, IMPORTS, "", [it["case"] for it in items],
-                     shard=max(40, -(-len(items) // C.JOBS)))
+                     shard=min(120, max(40, -(-len(items) // C.JOBS))))
     for e in rc["errors"]:
         chk.notes.append("coq case error: " + e[:400])
     bad = rc["bad"]
